@@ -1,7 +1,7 @@
 #!/bin/bash
 # Regenerate Generated/PyCtrl.v from a source tree and rebuild the two property files that depend on it.
 # usage: tools/pyctrl_try.sh [repo-dir] [coq-dir] [harness-dir]   (defaults: /repo, /work/pyctrl/coq, /verif/harness)
-R="${1:-/repo}"; C="${2:-/work/pyctrl/coq}"; H="${3:-/verif/harness}"
+R="${1:-/repo}"; C="${2:-/work/pyctrl/coq}"; H="${3:-${PYCTRL_HARNESS:-/verif/harness}}"
 [ -f "$H/vharness/pytrans_ctrl.py" ] || H=/work/pyctrl/harness
 cd "$H" && /venv/bin/python -m vharness.pytrans_ctrl "$R" "$C" >/dev/null 2>&1 || { echo "TRANSLATOR CRASHED"; exit 2; }
 cd "$C" && make Makefile.coq >/dev/null 2>&1
